@@ -3,7 +3,7 @@
    abstract state, with usages, roots and totals derived). *)
 From Coq Require Import Permutation.
 From PV Require Import Proofs.Defs Spec.ApiSpec.
-From PV Require Proofs.C04 Proofs.C08 Proofs.C09 Proofs.C12.
+From PV Require Proofs.C04 Proofs.C08 Proofs.C09 Proofs.C12 Proofs.C07d Proofs.C07e.
 
 (* ================================================================ the row order *)
 Lemma row_leb_total : forall a b, row_leb a b = false -> row_leb b a = true.
@@ -910,4 +910,324 @@ Lemma c11_rejected_reads_unchanged :
 Proof.
   intros cf d r d' rs q v Hwf H He. symmetry. apply c11_view_core_eq.
   exact (C04.c04_rejected_no_trace cf d r d' rs Hwf H He).
+Qed.
+
+(* ================================================================ only the successful requests matter *)
+(* every handler commutes with replacing the auxiliary name tables (projects / users / consumer
+   types), which nothing but the get-or-create of names touches: so requests answer the same and
+   leave core_eq states when started from core_eq states *)
+Import C07d C07e.
+
+Lemma cas_conss_aux l : forall d p u c, cas_conss (with_aux d p u c) l = rmap (cas_conss d l) p u c.
+Proof.
+  induction l as [|[x g] l IH]; intros; [reflexivity|].
+  cbn [cas_conss]. rewrite incr_cons_gen_aux. destruct (incr_cons_gen d x g); [|reflexivity].
+  cbn [rmap bind]. apply IH.
+Qed.
+
+Lemma set_allocations_aux d l p u c :
+  set_allocations (with_aux d p u c) l = rmap (set_allocations d l) p u c.
+Proof.
+  unfold set_allocations.
+  change (set_allocs (with_aux d p u c) (filter (fun a => negb (memZ (a_cons a) (map q_cons l))) (allocs (with_aux d p u c))))
+    with (with_aux (set_allocs d (filter (fun a => negb (memZ (a_cons a) (map q_cons l))) (allocs d))) p u c).
+  set (d1 := set_allocs d _).
+  rewrite check_capacity_aux.
+  destruct (check_capacity d1 l); [|reflexivity]. cbn [bind].
+  match goal with |- context [cas_rps (set_allocs (with_aux d1 p u c) ?X) ?L] =>
+    change (set_allocs (with_aux d1 p u c) X) with (with_aux (set_allocs d1 X) p u c) end.
+  auxn. rewrite cas_rps_aux.
+  destruct (cas_rps _ _) as [d3|e]; [|reflexivity].
+  cbn [rmap bind]. rewrite cas_conss_aux.
+  destruct (cas_conss _ _) as [d4|e]; reflexivity.
+Qed.
+
+Lemma reshape_txn_aux d ri objs p u c :
+  reshape_txn (with_aux d p u c) ri objs = rmap (reshape_txn d ri objs) p u c.
+Proof.
+  unfold reshape_txn. rewrite reshape_interim_aux.
+  destruct (reshape_interim d ri) as [[d1 gens]|e]; [|reflexivity].
+  cbn [rmap2 bind fst snd]. rewrite set_allocations_aux.
+  destruct (set_allocations d1 _) as [d2|e]; [|reflexivity].
+  cbn [rmap bind]. apply reshape_final_aux.
+Qed.
+
+Lemma rp_create_aux d x name parent p u c :
+  rp_create (with_aux d p u c) x name parent = rmap (rp_create d x name parent) p u c.
+Proof.
+  unfold rp_create. rewrite find_rp_aux. auxn.
+  match goal with |- bind ?M _ = _ => destruct M as [root|e] end; [|reflexivity].
+  cbn [bind]. destruct (existsb _ (rps d)); reflexivity.
+Qed.
+
+Lemma rp_update_aux d me name np al p u c :
+  rp_update (with_aux d p u c) me name np al = rmap (rp_update d me name np al) p u c.
+Proof.
+  unfold rp_update, name_taken. rewrite find_rp_aux. auxn.
+  match goal with |- bind ?M _ = _ => destruct M as [upd|e] end; [|reflexivity].
+  cbn [bind]. destruct (existsb _ (rps d)); reflexivity.
+Qed.
+
+Lemma rp_delete_aux d x p u c : rp_delete (with_aux d p u c) x = rmap (rp_delete d x) p u c.
+Proof.
+  unfold rp_delete. rewrite find_rp_aux. auxn.
+  destruct (existsb _ (rps d)); [reflexivity|]. destruct (existsb _ (allocs d)); [reflexivity|].
+  destruct (find_rp d x); reflexivity.
+Qed.
+
+Lemma rc_create_aux d n p u c : rc_create (with_aux d p u c) n = rmap (rc_create d n) p u c.
+Proof. unfold rc_create. change (rc_id_of_name (with_aux d p u c) n) with (rc_id_of_name d n).
+  destruct (rc_id_of_name d n); reflexivity. Qed.
+Lemma rc_destroy_aux d n p u c : rc_destroy (with_aux d p u c) n = rmap (rc_destroy d n) p u c.
+Proof. unfold rc_destroy. change (rc_id_of_name (with_aux d p u c) n) with (rc_id_of_name d n).
+  destruct (rc_id_of_name d n) as [id|]; [|reflexivity]. destruct (id <? _); [reflexivity|]. auxn.
+  destruct (existsb _ (invs d)); reflexivity. Qed.
+Lemma rc_rename_aux d o n p u c : rc_rename (with_aux d p u c) o n = rmap (rc_rename d o n) p u c.
+Proof. unfold rc_rename. change (rc_id_of_name (with_aux d p u c) o) with (rc_id_of_name d o).
+  destruct (rc_id_of_name d o) as [id|]; [|reflexivity]. destruct (id <? _); [reflexivity|]. auxn.
+  destruct (_ || _); reflexivity. Qed.
+Lemma trait_create_aux d t p u c : trait_create (with_aux d p u c) t = rmap (trait_create d t) p u c.
+Proof. unfold trait_create. rewrite trait_exists_aux. destruct (trait_exists d t); reflexivity. Qed.
+Lemma trait_destroy_aux d t p u c : trait_destroy (with_aux d p u c) t = rmap (trait_destroy d t) p u c.
+Proof. unfold trait_destroy. rewrite trait_exists_aux. destruct (negb _); [reflexivity|].
+  destruct (is_std_trait t); [reflexivity|]. auxn. destruct (existsb _ (rp_traits d)); reflexivity. Qed.
+
+(* the shape of the claim for handlers *)
+Definition auxc (f : db -> db * resp) : Prop :=
+  forall d p u c, exists p' u' c', f (with_aux d p u c) = (with_aux (fst (f d)) p' u' c', snd (f d)).
+Ltac same := intros d p u c; exists p, u, c.
+
+Lemma h_rp_create_auxc v x name parent : auxc (fun d => h_rp_create d v x name parent).
+Proof.
+  same. unfold h_rp_create. destruct (_ && _); [reflexivity|]. rewrite rp_create_aux.
+  destruct (rp_create d x name parent) as [d'|[]]; reflexivity.
+Qed.
+Lemma h_rp_update_auxc v x name parent : auxc (fun d => h_rp_update d v x name parent).
+Proof.
+  same. unfold h_rp_update. rewrite find_rp_aux. destruct (find_rp d x) as [me|]; [|reflexivity].
+  destruct (_ && _); [reflexivity|]. rewrite rp_update_aux.
+  destruct (rp_update d me name _ _) as [d'|[]]; reflexivity.
+Qed.
+Lemma h_rp_delete_auxc x : auxc (fun d => h_rp_delete d x).
+Proof.
+  same. unfold h_rp_delete. rewrite find_rp_aux. destruct (find_rp d x) as [me|]; [|reflexivity].
+  rewrite rp_delete_aux. destruct (rp_delete d x) as [d'|[]]; reflexivity.
+Qed.
+Lemma h_inv_set_auxc v x g l : auxc (fun d => h_inv_set d v x g l).
+Proof.
+  same. unfold h_inv_set. rewrite find_rp_aux. destruct (find_rp d x) as [me|]; [|reflexivity].
+  destruct (negb _); [reflexivity|]. destruct (existsb _ l); [reflexivity|]. rewrite set_inventory_aux.
+  destruct (set_inventory d x (rp_gen me) l) as [d'|[]]; reflexivity.
+Qed.
+Lemma h_inv_post_auxc v x i : auxc (fun d => h_inv_post d v x i).
+Proof.
+  same. unfold h_inv_post. rewrite find_rp_aux. destruct (find_rp d x) as [me|]; [|reflexivity].
+  destruct (bad_capacity v i); [reflexivity|]. rewrite add_inventory_aux.
+  destruct (add_inventory d x (rp_gen me) i) as [d'|[]]; reflexivity.
+Qed.
+Lemma h_inv_put_auxc v x g i : auxc (fun d => h_inv_put d v x g i).
+Proof.
+  same. unfold h_inv_put. rewrite find_rp_aux. destruct (find_rp d x) as [me|]; [|reflexivity].
+  destruct (negb _); [reflexivity|]. destruct (bad_capacity v i); [reflexivity|]. rewrite update_inventory_aux.
+  destruct (update_inventory d x (rp_gen me) i) as [d'|[]]; reflexivity.
+Qed.
+Lemma h_inv_delete_auxc x rc : auxc (fun d => h_inv_delete d x rc).
+Proof.
+  same. unfold h_inv_delete. rewrite find_rp_aux. destruct (find_rp d x) as [me|]; [|reflexivity].
+  rewrite delete_inventory_aux. destruct (delete_inventory d x (rp_gen me) rc) as [d'|[]]; reflexivity.
+Qed.
+Lemma h_inv_delete_all_auxc v x : auxc (fun d => h_inv_delete_all d v x).
+Proof.
+  same. unfold h_inv_delete_all. destruct (v <? 5); [reflexivity|].
+  rewrite find_rp_aux. destruct (find_rp d x) as [me|]; [|reflexivity].
+  rewrite set_inventory_aux. destruct (set_inventory d x (rp_gen me) []) as [d'|[]]; reflexivity.
+Qed.
+Lemma h_traits_set_auxc v x g ts : auxc (fun d => h_traits_set d v x g ts).
+Proof.
+  same. unfold h_traits_set. destruct (v <? 6); [reflexivity|].
+  rewrite find_rp_aux. destruct (find_rp d x) as [me|]; [|reflexivity].
+  destruct (negb (g =? _)); [reflexivity|].
+  replace (forallb (trait_exists (with_aux d p u c)) ts) with (forallb (trait_exists d) ts) by reflexivity.
+  destruct (negb (forallb _ ts)); [reflexivity|]. rewrite set_traits_txn_aux.
+  destruct (set_traits_txn d x (rp_gen me) ts) as [d'|[]]; reflexivity.
+Qed.
+Lemma h_traits_delete_auxc v x : auxc (fun d => h_traits_delete d v x).
+Proof.
+  same. unfold h_traits_delete. destruct (v <? 6); [reflexivity|].
+  rewrite find_rp_aux. destruct (find_rp d x) as [me|]; [|reflexivity].
+  rewrite set_traits_txn_aux. destruct (set_traits_txn d x (rp_gen me) []) as [d'|[]]; reflexivity.
+Qed.
+Lemma h_aggs_set_auxc v x g l : auxc (fun d => h_aggs_set d v x g l).
+Proof.
+  same. unfold h_aggs_set. destruct (v <? 1); [reflexivity|].
+  rewrite find_rp_aux. destruct (find_rp d x) as [me|]; [|reflexivity].
+  destruct (_ && _); [reflexivity|]. rewrite set_aggregates_txn_aux.
+  destruct (set_aggregates_txn d x (rp_gen me) (dedup l) (19 <=? v)) as [d'|[]]; reflexivity.
+Qed.
+Lemma h_alloc_delete_auxc x : auxc (fun d => h_alloc_delete d x).
+Proof.
+  same. unfold h_alloc_delete. rewrite wipe_list_aux. destruct (wipe_list d x); reflexivity.
+Qed.
+Lemma h_rc_create_auxc v n : auxc (fun d => h_rc_create d v n).
+Proof.
+  same. unfold h_rc_create. destruct (v <? 2); [reflexivity|]. destruct (is_std_rc_name n); [reflexivity|].
+  rewrite rc_create_aux. destruct (rc_create d n) as [d'|[]]; reflexivity.
+Qed.
+Lemma h_rc_put_auxc v n : auxc (fun d => h_rc_put d v n).
+Proof.
+  same. unfold h_rc_put. destruct (v <? 2); [reflexivity|]. destruct (v <? 7); [reflexivity|].
+  destruct (is_std_rc_name n); [reflexivity|].
+  change (rc_id_of_name (with_aux d p u c) n) with (rc_id_of_name d n).
+  destruct (rc_id_of_name d n); [reflexivity|].
+  rewrite rc_create_aux. destruct (rc_create d n) as [d'|[]]; reflexivity.
+Qed.
+Lemma h_rc_rename_auxc v o n : auxc (fun d => h_rc_rename d v o n).
+Proof.
+  intros d p u c. unfold h_rc_rename. destruct (v <? 2); [exists p, u, c; reflexivity|].
+  destruct (6 <? v); [apply (h_rc_put_auxc v o)|]. exists p, u, c.
+  destruct (is_std_rc_name n); [reflexivity|].
+  rewrite rc_rename_aux. destruct (rc_rename d o n) as [d'|[]]; reflexivity.
+Qed.
+Lemma h_rc_delete_auxc v n : auxc (fun d => h_rc_delete d v n).
+Proof.
+  same. unfold h_rc_delete. destruct (v <? 2); [reflexivity|].
+  rewrite rc_destroy_aux. destruct (rc_destroy d n) as [d'|[]]; reflexivity.
+Qed.
+Lemma h_trait_put_auxc v t : auxc (fun d => h_trait_put d v t).
+Proof.
+  same. unfold h_trait_put. destruct (v <? 6); [reflexivity|]. destruct (is_std_trait t); [reflexivity|].
+  rewrite trait_create_aux. destruct (trait_create d t) as [d'|[]]; reflexivity.
+Qed.
+Lemma h_trait_delete_auxc v t : auxc (fun d => h_trait_delete d v t).
+Proof.
+  same. unfold h_trait_delete. destruct (v <? 6); [reflexivity|].
+  rewrite trait_destroy_aux. destruct (trait_destroy d t) as [d'|[]]; reflexivity.
+Qed.
+
+Lemma ensure_consumer_aux cf v k d p u c : exists p' u' c',
+  ensure_consumer cf v (with_aux d p u c) k =
+  (with_aux (fst (ensure_consumer cf v d k)) p' u' c', snd (ensure_consumer cf v d k)).
+Proof.
+  destruct d as [r i a cs pp uu tt rc tr ag ra rt].
+  unfold ensure_consumer, with_aux, find_cons, set_users, set_projects, set_ctypes, set_consumers.
+  cbn [rps invs allocs consumers projects users ctypes rcs traits aggs rp_aggs rp_traits].
+  destruct (find_cons_l cs (ci_uuid k)) as [k0|].
+  - destruct (_ && _); [do 3 eexists; reflexivity|]. destruct (38 <=? v); do 3 eexists; reflexivity.
+  - destruct (_ && _); [do 3 eexists; reflexivity|]. destruct (38 <=? v); do 3 eexists; reflexivity.
+Qed.
+
+Lemma inspect_consumers_aux cf v : forall l d acc p u c, exists p' u' c',
+  inspect_consumers cf v (with_aux d p u c) acc l =
+  (with_aux (fst (inspect_consumers cf v d acc l)) p' u' c', snd (inspect_consumers cf v d acc l)).
+Proof.
+  induction l as [|k l IH]; intros d acc p u c; [exists p, u, c; reflexivity|].
+  destruct (ensure_consumer_aux cf v k d p u c) as (p1 & u1 & c1 & E).
+  cbn [inspect_consumers]. rewrite E.
+  destruct (ensure_consumer cf v d k) as [d1 [ko|]]; cbn [fst snd]; [apply IH|].
+  exists p1, u1, c1. reflexivity.
+Qed.
+
+Lemma new_allocs_aux d k p u c : forall l, new_allocs (with_aux d p u c) k l = new_allocs d k l.
+Proof.
+  induction l as [|a l IH]; [reflexivity|]. cbn [new_allocs]. rewrite IH, find_rp_aux. reflexivity.
+Qed.
+Lemma alloc_objs_aux d k l p u c : alloc_objs (with_aux d p u c) k l = alloc_objs d k l.
+Proof. destruct l; cbn [alloc_objs]; [rewrite wipe_list_aux; reflexivity|apply new_allocs_aux]. Qed.
+Lemma alloc_list_aux d p u c : forall ks l, alloc_list (with_aux d p u c) ks l = alloc_list d ks l.
+Proof.
+  induction ks as [|k ks IH]; intros [|x l]; try reflexivity.
+  cbn [alloc_list]. rewrite IH, alloc_objs_aux. reflexivity.
+Qed.
+Lemma reshape_precheck_aux d p u c : forall ri, reshape_precheck (with_aux d p u c) ri = reshape_precheck d ri.
+Proof.
+  induction ri as [|r ri IH]; [reflexivity|]. cbn [reshape_precheck]. rewrite IH, find_rp_aux. reflexivity.
+Qed.
+
+Lemma post_core_auxc cf v l txn ef :
+  (forall d objs p u c, txn (with_aux d p u c) objs = rmap (txn d objs) p u c) ->
+  auxc (fun d => C12.post_core cf d v l txn ef).
+Proof.
+  intros Htxn d p u c. unfold C12.post_core.
+  destruct (inspect_consumers_aux cf v l d [] p u c) as (p1 & u1 & c1 & E). rewrite E.
+  destruct (inspect_consumers cf v d [] l) as [d1 [ks|]]; cbn [fst snd]; [|exists p1, u1, c1; reflexivity].
+  rewrite alloc_list_aux. destruct (alloc_list d1 ks l) as [objs|]; [|exists p1, u1, c1; reflexivity].
+  rewrite fold_update_consumer_aux, Htxn.
+  destruct (txn (fold_left update_consumer ks d1) objs) as [d2|e]; exists p1, u1, c1; reflexivity.
+Qed.
+
+Lemma step_auxc cf r : auxc (fun d => step cf d r).
+Proof.
+  destruct r; cbn [step].
+  - apply h_rp_create_auxc.
+  - apply h_rp_update_auxc.
+  - apply h_rp_delete_auxc.
+  - apply h_inv_set_auxc.
+  - apply h_inv_post_auxc.
+  - apply h_inv_put_auxc.
+  - apply h_inv_delete_auxc.
+  - apply h_inv_delete_all_auxc.
+  - apply h_traits_set_auxc.
+  - apply h_traits_delete_auxc.
+  - apply h_aggs_set_auxc.
+  - intros d p u c0. rewrite !C12.h_alloc_put_core.
+    apply (post_core_auxc cf v [c] set_allocations alloc_err set_allocations_aux).
+  - intros d p u c. rewrite !C12.h_alloc_post_core. destruct (v <? 13); [exists p, u, c; reflexivity|].
+    apply (post_core_auxc cf v l set_allocations alloc_err set_allocations_aux).
+  - apply h_alloc_delete_auxc.
+  - intros d p u c. rewrite !C12.h_reshape_core. destruct (v <? 30); [exists p, u, c; reflexivity|].
+    rewrite reshape_precheck_aux. destruct (reshape_precheck d ri); [exists p, u, c; reflexivity|].
+    apply (post_core_auxc cf v al (fun d0 objs => reshape_txn d0 ri objs) reshape_err).
+    intros. apply reshape_txn_aux.
+  - apply h_rc_create_auxc.
+  - apply h_rc_put_auxc.
+  - apply h_rc_rename_auxc.
+  - apply h_rc_delete_auxc.
+  - apply h_trait_put_auxc.
+  - apply h_trait_delete_auxc.
+Qed.
+
+Lemma step_core_eq cf r d1 d2 : core_eq d1 d2 ->
+  core_eq (fst (step cf d1 r)) (fst (step cf d2 r)) /\ snd (step cf d1 r) = snd (step cf d2 r).
+Proof.
+  intro H. rewrite (core_eq_is_with_aux _ _ H).
+  destruct (step_auxc cf r d1 (projects d2) (users d2) (ctypes d2)) as (p' & u' & c' & E).
+  rewrite E. cbn [fst snd]. split; [apply core_eq_with_aux|reflexivity].
+Qed.
+
+Lemma run_successes cf : forall l d1 d2, reqs_wf l -> core_eq d1 d2 ->
+  core_eq (run cf d1 l) (run cf d2 (successes cf d1 l)).
+Proof.
+  induction l as [|r l IH]; intros d1 d2 Hwf He; [exact He|].
+  inversion Hwf as [|? ? Hr Hl]; subst. cbn [run successes].
+  destruct (step cf d1 r) as [d1' rs] eqn:E. cbn [fst].
+  destruct (status rs <? 400) eqn:Es.
+  - cbn [run]. apply IH; [exact Hl|].
+    pose proof (step_core_eq cf r d1 d2 He) as [Hc _]. rewrite E in Hc. exact Hc.
+  - apply IH; [exact Hl|]. apply Z.ltb_ge in Es.
+    apply core_eq_trans with d1; [|exact He]. apply core_eq_sym.
+    exact (C04.c04_rejected_no_trace cf d1 r d1' rs Hr E Es).
+Qed.
+
+Lemma c11_only_successes_matter :
+  forall cf l q v, reqs_wf l ->
+    view q v (run cf db0 l) = view q v (run cf db0 (successes cf db0 l)).
+Proof.
+  intros cf l q v Hwf. apply c11_view_core_eq. apply run_successes; [exact Hwf|apply core_eq_refl].
+Qed.
+
+Lemma successes_wf cf : forall l d, reqs_wf l -> reqs_wf (successes cf d l).
+Proof.
+  induction l as [|r l IH]; intros d Hwf; [constructor|].
+  inversion Hwf as [|? ? Hr Hl]; subst. cbn [successes].
+  destruct (step cf d r) as [d' rs]. destruct (status rs <? 400); [constructor; [exact Hr|]|]; apply IH; exact Hl.
+Qed.
+
+(* C11 in one statement: what is read after a history is the reference semantics applied to the
+   abstract state produced by the successful requests alone *)
+Lemma c11_reads_are_successful_writes :
+  forall cf l q v, reqs_wf l ->
+    view q v (run cf db0 l) = spec_view q v (abs (run cf db0 (successes cf db0 l))).
+Proof.
+  intros cf l q v Hwf. rewrite (c11_only_successes_matter cf l q v Hwf).
+  apply c11_reads_refine_reachable. apply successes_wf. exact Hwf.
 Qed.
